@@ -128,6 +128,9 @@ func checkListing(p *Prog, l *Ledger, keysT, valuesT string) {
 	explore := func(tn string) *info {
 		fn := p.Func("interpreter." + tn + ".Call")
 		if fn == nil {
+			fn = p.Func("interpreter.(*" + tn + ").Call") // the same method on a pointer receiver
+		}
+		if fn == nil {
 			return nil
 		}
 		m := NewInterpModel(p, "builtin/"+tn)
